@@ -114,20 +114,21 @@ def parseUint (s : List UInt8) : Except PErr Nat :=
   | [] => .error .syntax
   | _ => parseUintLoop 0 s
 
+/-- `ParseInt` after the sign has been picked off: `ParseUint`, then the range check against `cutoff = 1 << 63` -/
+def parseIntBody (neg : Bool) (body : List UInt8) : Option Int :=
+  match parseUint body with
+  | .error .syntax => none
+  | .error .range => none      -- un = maxVal ≥ cutoff: range error either way
+  | .ok un =>
+    if !neg ∧ un ≥ 2 ^ 63 then none
+    else if neg ∧ un > 2 ^ 63 then none
+    else some (if neg then - (un : Int) else (un : Int))
+
 /-- `strconv.ParseInt(s, 10, 64)`; `none` = any error (the caller turns every error into NULL) -/
 def parseInt (s : List UInt8) : Option Int :=
   match s with
   | [] => none
-  | c :: rest =>
-    let neg := c == 45
-    let body := if c == 43 ∨ c == 45 then rest else s
-    match parseUint body with
-    | .error .syntax => none
-    | .error .range => none      -- un = maxVal ≥ cutoff: range error either way
-    | .ok un =>
-      if !neg ∧ un ≥ 2 ^ 63 then none
-      else if neg ∧ un > 2 ^ 63 then none
-      else some (if neg then - (un : Int) else (un : Int))
+  | c :: rest => parseIntBody (c == 45) (if c == 43 ∨ c == 45 then rest else s)
 
 /-! ### fmt.Sprint(int64) = strconv.FormatInt(i, 10) -/
 def natDigitsF : Nat → Nat → List UInt8
@@ -228,72 +229,138 @@ def ofOptInt (o : Option Int) (f : Int → Value) : Outcome :=
   | some v => .val (f v)
   | none => .err
 
-/-- one arm per descriptor of `FunctionMap()`, in source order (the overload index is the position in `Descriptors`) -/
+/-! One definition per entry of the `FunctionMap()` literal, one arm per descriptor in source order
+    (the overload index is the position in `Descriptors`). -/
+
+/-- `"+"` -/
+def fnAdd : Nat → List Value → Outcome
+  | 0, [.int a, .int b] => .val (.int (addI64 a b))
+  | 1, [.float _, .float _] => .opaque tFloat
+  | 2, [.dur a, .dur b] => .val (.dur (addI64 a b))
+  | 3, [.time t l, .dur d] => .val (.time (timeAdd t d) l)
+  | 4, [.dur d, .time t l] => .val (.time (timeAdd t d) l)
+  | 5, [.str a, .str b] => .val (.str (a ++ b))
+  | _, _ => .illTyped
+
+/-- `"-"` -/
+def fnSub : Nat → List Value → Outcome
+  | 0, [.int a, .int b] => .val (.int (subI64 a b))
+  | 1, [.int a] => .val (.int (negI64 a))
+  | 2, [.float _, .float _] => .opaque tFloat
+  | 3, [.float a] => .val (.float (floatNeg a))
+  | 4, [.dur a, .dur b] => .val (.dur (subI64 a b))
+  | 5, [.dur a] => .val (.dur (negI64 a))
+  | 6, [.time t l, .dur d] => .val (.time (timeAdd t (negI64 d)) l)
+  | _, _ => .illTyped
+
+/-- `"*"` -/
+def fnMul : Nat → List Value → Outcome
+  | 0, [.int a, .int b] => .val (.int (mulI64 a b))
+  | 1, [.float _, .float _] => .opaque tFloat
+  | 2, [.dur a, .int b] => .val (.dur (mulI64 a b))
+  | 3, [.int a, .dur b] => .val (.dur (mulI64 b a))
+  | 4, [.str s, .int n] => repeatString s n
+  | 5, [.int n, .str s] => repeatString s n
+  | _, _ => .illTyped
+
+/-- `"/"` -/
+def fnDiv : Nat → List Value → Outcome
+  | 0, [.int a, .int b] => ofOptInt (divFn a b) .int
+  | 1, [.float _, .float _] => .opaque tFloat
+  | 2, [.dur a, .int b] => ofOptInt (divFn a b) .dur
+  | 3, [.dur _, .dur _] => .opaque tFloat
+  | _, _ => .illTyped
+
+/-- `"abs"` -/
+def fnAbs : Nat → List Value → Outcome
+  | 0, [.int a] => if a > 0 then .val (.int a) else .val (.int (mulI64 a (-1)))
+  | 1, [.float a] => .val (.float (floatAbs a))
+  | _, _ => .illTyped
+
+/-- `sqrt ceil floor log2 log log10` (one Float overload each) and `pow`: `math.*`, not modelled -/
+def fnMath1 : Nat → List Value → Outcome
+  | 0, [.float _] => .opaque tFloat
+  | _, _ => .illTyped
+def fnPow : Nat → List Value → Outcome
+  | 0, [.float _, .float _] => .opaque tFloat
+  | _, _ => .illTyped
+
+/-- `"len"` -/
+def fnLen : Nat → List Value → Outcome
+  | 0, [.str s] => .val (.int s.length)
+  | 1, [.list xs] => .val (.int xs.length)
+  | 2, [.struct xs] => .val (.int xs.length)
+  | 3, [.tuple xs] => .val (.int xs.length)
+  | _, _ => .illTyped
+
+/-- `"time_from_unix"` -/
+def fnTimeFromUnix : Nat → List Value → Outcome
+  | 0, [.int x] => .val (.time (timeUnix x 0) 0)
+  | 1, [.float _] => .opaque tTime
+  | _, _ => .illTyped
+
+/-- `"time_to_unix"` -/
+def fnTimeToUnix : Nat → List Value → Outcome
+  | 0, [.time t _] => .val (.int (timeToUnix t))
+  | _, _ => .illTyped
+
+/-- `"int"` -/
+def fnInt : Nat → List Value → Outcome
+  | 0, [.int a] => .val (.int a)
+  | 1, [.bool b] => .val (.int (if b then 1 else 0))
+  | 2, [.float _] => .opaque tInt
+  | 3, [.str s] => (match parseInt s with | some i => .val (.int i) | none => .val .null)
+  | 4, [.dur d] => .val (.int d)
+  | _, _ => .illTyped
+
+/-- `"float"` -/
+def fnFloat : Nat → List Value → Outcome
+  | 0, [.float a] => .val (.float a)
+  | 1, [.int _] => .opaque tFloat
+  | 2, [.str _] => .opaque tFloat      -- Float or NULL; decided by strconv.ParseFloat
+  | 3, [.dur _] => .opaque tFloat
+  | _, _ => .illTyped
+
+/-- `"string"` -/
+def fnString : Nat → List Value → Outcome
+  | 0, [v] => (match valueString v with | some s => .val (.str s) | none => .opaque tStr)
+  | _, _ => .illTyped
+
+/-- `"[]"` -/
+def fnIndex : Nat → List Value → Outcome
+  | 0, [.list xs, .int i] => indexFn xs i
+  | _, _ => .illTyped
+
+/-- `"in"` -/
+def fnIn : Nat → List Value → Outcome
+  | 0, [x, .list xs] => .val (.bool (memLoop x xs))
+  | 1, [x, .tuple xs] => .val (.bool (memLoop x xs))
+  | _, _ => .illTyped
+
+/-- `"not in"` -/
+def fnNotIn : Nat → List Value → Outcome
+  | 0, [x, .list xs] => .val (.bool (!memLoop x xs))
+  | 1, [x, .tuple xs] => .val (.bool (!memLoop x xs))
+  | _, _ => .illTyped
+
+/-- the function table: `FunctionMap()[name].Descriptors[idx].Function(args)` (names are the harness's token-safe symbols) -/
 def callFn (name : String) (idx : Nat) (args : List Value) : Outcome :=
-  match name, idx, args with
-  -- "+"
-  | "add", 0, [.int a, .int b] => .val (.int (addI64 a b))
-  | "add", 1, [.float _, .float _] => .opaque tFloat
-  | "add", 2, [.dur a, .dur b] => .val (.dur (addI64 a b))
-  | "add", 3, [.time t l, .dur d] => .val (.time (timeAdd t d) l)
-  | "add", 4, [.dur d, .time t l] => .val (.time (timeAdd t d) l)
-  | "add", 5, [.str a, .str b] => .val (.str (a ++ b))
-  -- "-"
-  | "sub", 0, [.int a, .int b] => .val (.int (subI64 a b))
-  | "sub", 1, [.int a] => .val (.int (negI64 a))
-  | "sub", 2, [.float _, .float _] => .opaque tFloat
-  | "sub", 3, [.float a] => .val (.float (floatNeg a))
-  | "sub", 4, [.dur a, .dur b] => .val (.dur (subI64 a b))
-  | "sub", 5, [.dur a] => .val (.dur (negI64 a))
-  | "sub", 6, [.time t l, .dur d] => .val (.time (timeAdd t (negI64 d)) l)
-  -- "*"
-  | "mul", 0, [.int a, .int b] => .val (.int (mulI64 a b))
-  | "mul", 1, [.float _, .float _] => .opaque tFloat
-  | "mul", 2, [.dur a, .int b] => .val (.dur (mulI64 a b))
-  | "mul", 3, [.int a, .dur b] => .val (.dur (mulI64 b a))
-  | "mul", 4, [.str s, .int n] => repeatString s n
-  | "mul", 5, [.int n, .str s] => repeatString s n
-  -- "/"
-  | "div", 0, [.int a, .int b] => ofOptInt (divFn a b) .int
-  | "div", 1, [.float _, .float _] => .opaque tFloat
-  | "div", 2, [.dur a, .int b] => ofOptInt (divFn a b) .dur
-  | "div", 3, [.dur _, .dur _] => .opaque tFloat
-  -- math
-  | "abs", 0, [.int a] => if a > 0 then .val (.int a) else .val (.int (mulI64 a (-1)))
-  | "abs", 1, [.float a] => .val (.float (floatAbs a))
-  | "sqrt", 0, [.float _] => .opaque tFloat
-  | "ceil", 0, [.float _] => .opaque tFloat
-  | "floor", 0, [.float _] => .opaque tFloat
-  | "log2", 0, [.float _] => .opaque tFloat
-  | "log", 0, [.float _] => .opaque tFloat
-  | "log10", 0, [.float _] => .opaque tFloat
-  | "pow", 0, [.float _, .float _] => .opaque tFloat
-  -- len
-  | "len", 0, [.str s] => .val (.int s.length)
-  | "len", 1, [.list xs] => .val (.int xs.length)
-  | "len", 2, [.struct xs] => .val (.int xs.length)
-  | "len", 3, [.tuple xs] => .val (.int xs.length)
-  -- time
-  | "tfu", 0, [.int x] => .val (.time (timeUnix x 0) 0)
-  | "tfu", 1, [.float _] => .opaque tTime
-  | "ttu", 0, [.time t _] => .val (.int (timeToUnix t))
-  -- conversions
-  | "int", 0, [.int a] => .val (.int a)
-  | "int", 1, [.bool b] => .val (.int (if b then 1 else 0))
-  | "int", 2, [.float _] => .opaque tInt
-  | "int", 3, [.str s] => (match parseInt s with | some i => .val (.int i) | none => .val .null)
-  | "int", 4, [.dur d] => .val (.int d)
-  | "float", 0, [.float a] => .val (.float a)
-  | "float", 1, [.int _] => .opaque tFloat
-  | "float", 2, [.str _] => .opaque tFloat      -- Float or NULL; decided by strconv.ParseFloat
-  | "float", 3, [.dur _] => .opaque tFloat
-  | "string", 0, [v] => (match valueString v with | some s => .val (.str s) | none => .opaque tStr)
-  -- collections
-  | "idx", 0, [.list xs, .int i] => indexFn xs i
-  | "in", 0, [x, .list xs] => .val (.bool (memLoop x xs))
-  | "in", 1, [x, .tuple xs] => .val (.bool (memLoop x xs))
-  | "notin", 0, [x, .list xs] => .val (.bool (!memLoop x xs))
-  | "notin", 1, [x, .tuple xs] => .val (.bool (!memLoop x xs))
-  | _, _, _ => .illTyped
+  if name = "add" then fnAdd idx args
+  else if name = "sub" then fnSub idx args
+  else if name = "mul" then fnMul idx args
+  else if name = "div" then fnDiv idx args
+  else if name = "abs" then fnAbs idx args
+  else if name = "sqrt" ∨ name = "ceil" ∨ name = "floor" ∨ name = "log2" ∨ name = "log" ∨ name = "log10" then fnMath1 idx args
+  else if name = "pow" then fnPow idx args
+  else if name = "len" then fnLen idx args
+  else if name = "tfu" then fnTimeFromUnix idx args
+  else if name = "ttu" then fnTimeToUnix idx args
+  else if name = "int" then fnInt idx args
+  else if name = "float" then fnFloat idx args
+  else if name = "string" then fnString idx args
+  else if name = "idx" then fnIndex idx args
+  else if name = "in" then fnIn idx args
+  else if name = "notin" then fnNotIn idx args
+  else .illTyped
 
 end Octo.Num
